@@ -10,7 +10,7 @@ off the clauses of `Spec.RWCover.rowOk`.
 
 Full-strength statement (NOT provable on the pinned tree, see the two witnesses at the end):
     theorem rw_covers_db : ∀ r ∈ x86Table, rowOk r = true
-Open finding C12-F1: the register-or-memory information is kept per instruction id and applied to every form, so RegMem is
+(Finding C12-F3, tbl/tbx register lists, is closed: /repo fix C05-7.)  Open finding C12-F1: the register-or-memory information is kept per instruction id and applied to every form, so RegMem is
 claimed for operands for which the database has no memory form (`kmovb r32, k`, `vmovd r32, xmm`, `vpslld x, x, x` operand 1 …).
 `rowOkPartial` excludes exactly that class (`regMemOk lenient`).  Open finding C12-F2: queries with the implicit operands omitted
 (`mul rcx`) index the per-position tables wrongly; the tables here contain the explicit forms only.
@@ -155,11 +155,11 @@ theorem vector_masks_cover_db : ∀ r ∈ x86Table, ∀ p ∈ (effDbOps r).zip r
   · rename_i h0; simp at h0; exact absurd h0 hk
   · simp only [Bool.and_eq_true] at this; exact this.2
 
-/-- every AArch64 register-list form of the database (ld1–ld4, st1–st4, ld1r–ld4r; all arrangements, all addressing forms) whose
-    list starts at operand 0 reports the run: lead count = list length on the first register, `kConsecutive` on the others.
-    Full strength (`∀ list form`) fails: finding C12-F3, `tbl`/`tbx` lists start at operand 1 and are not reported
-    (`a64_list_not_first_witness`). -/
-theorem a64_lists_reported_partial : ∀ r ∈ Gen.C12A64.table, rowOk r = true :=
+/-- every AArch64 register-list form of the database that AsmJit accepts (ld1–ld4, st1–st4, ld1r–ld4r with all arrangements and
+    addressing forms, and tbl/tbx whose 2–4 register table starts at operand 1) reports the run — lead count = list length on the
+    first list register, `kConsecutive` on the others — and the database's access letters (tbx reads its destination).
+    Full strength since /repo fix C05-7 closed finding C12-F3. -/
+theorem a64_lists_reported : ∀ r ∈ Gen.C12A64.table, rowOk r = true :=
   List.all_eq_true.mp Gen.C12A64.table_ok
 
 /-- the committed RW / flags / feature tables of x86instdb.cpp are the tables tools/tablegen-x86.js regenerates from db/
@@ -181,14 +181,6 @@ def f2Witness : Row :=
    [⟨0x102, 2, 0, 0, 0x0, 0xff, 0x0⟩], 0, 0x30f, [], 0⟩
 theorem implicit_omitted_witness : rowOk f2Witness = false := by decide
 
-/-- C12-F3: `tbl v4.8b, {v8.16b, v9.16b}, v5.8b` — no lead count on `v8`, no `kConsecutive` on `v9` -/
-def f3Witness : Row :=
-  ⟨false, [⟨1, false, 16, false, false, 0, 0, 0, 0, 0, false, []⟩, ⟨1, false, 16, false, false, 0, 0, 0, 0, 2, false, []⟩,
-           ⟨1, false, 16, false, false, 0, 0, 0, 1, 0, false, []⟩, ⟨1, false, 16, false, false, 0, 0, 0, 0, 0, false, []⟩], 0, 0, false, [], [],
-   [⟨0x2, 255, 0, 0, 0x0, 0xffffffffffffffff, 0x0⟩, ⟨0x1, 255, 0, 0, 0xffffffffffffffff, 0x0, 0x0⟩,
-    ⟨0x1, 255, 0, 0, 0xffffffffffffffff, 0x0, 0x0⟩, ⟨0x1, 255, 0, 0, 0xffffffffffffffff, 0x0, 0x0⟩], 0, 0, [], 0⟩
-theorem a64_list_not_first_witness : rowOk f3Witness = false := by decide
-
 /-! ### non-vacuity: the tables are populated and contain rows of every kind the clauses talk about -/
 example : Gen.C12Rows.tableSize > 1000 := by decide
 example : Gen.C12Rows.table.length = Gen.C12Rows.tableSize := by decide +kernel
@@ -204,6 +196,9 @@ example : Gen.C12Rows32.tableSize > 100 := by decide
 example : (Gen.C12Rows32.table.filter fun r => !r.mode64 && r.dbOps.any fun d => d.kind == 1 && d.gp && d.write && d.size == 4).length > 50 := by decide +kernel
 example : (Gen.C12Rows.table.filter fun r => r.dbOps.any fun d => d.kind == 1 && !d.gp && d.write && d.width > 0).length > 300 := by decide +kernel
 example : (Gen.C12A64.table.filter fun r => r.dbOps.any fun d => d.runLen ≥ 2).length > 5 := by decide +kernel
+-- lists that start at operand 1 (tbl/tbx) are in the table, and a tbx row demands the destination read
+example : (Gen.C12A64.table.filter fun r => match r.dbOps with | d :: e :: _ => d.runLen == 0 && e.runLen ≥ 2 | _ => false).length > 1 := by decide +kernel
+example : (Gen.C12A64.table.filter fun r => match r.dbOps with | d :: e :: _ => d.read && d.write && e.runLen ≥ 2 | _ => false).length > 0 := by decide +kernel
 example : Gen.C12Tables.committed.length > 2000 := by decide +kernel
 
 end Props.C12
